@@ -318,8 +318,9 @@ def run_case(part, env, seam, sp, name, spec, plain, inputs, mode, script, seed,
             part.violation(f'{base}:nontermination' + (':zero-polynomial' if zero else ''),
                            f'{tag} does not terminate (more than {DRAW_BUDGET} random draws; masks {mode} {script})', detail)
             return None
-        part.violation(f'{base}:exception:{type(exc).__name__}' + (':empty-operands' if all(len(c) == 0 for c in inputs) else ''),
-                       f'{tag} raised {exc!r:.200} (masks {mode} {script})', detail)
+        cls_in = ':empty-operands' if all(not p_ for p_ in pls) and any(len(c) == 0 for c in inputs) else \
+            ':zero-polynomial' if all(not p_ for p_ in pls) else ''
+        part.violation(f'{base}:exception:{type(exc).__name__}{cls_in}', f'{tag} raised {exc!r:.200} (masks {mode} {script})', detail)
         return None
     draws = len(seam.log)
     part.case(key=None, nontrivial=bool(draws) or any(len(c) > 1 for c in inputs))
@@ -334,13 +335,15 @@ def run_case(part, env, seam, sp, name, spec, plain, inputs, mode, script, seed,
             a, b = pls
             if got[0] == want[0] and got[1] * a + got[2] * b == got[0]:
                 key = f'{key0}:cofactors-differ'
-        if name.startswith('powmod:0') and fail == 'value' and pls[1].degree() == 0:
-            key = f'{key0}:n=0:constant-modulus'
+        if name.startswith('powmod:') and fail == 'value' and type(got) is env.poly and got % pls[1] == want:
+            key = f'{key0}:unreduced:n={name.split(":")[1]}'
+        if name == 'is_irreducible' and any(c and c[-1] == 0 for c in inputs):
+            key += ':trailing-zeros'
         part.violation(key, f'{tag} = {got!r:.120}, gfpx gives {want!r:.120} (masks {mode} {script})', detail)
     elif len(part.samples) < 2 and draws and mode == 'max' and arity == 2:
         part.sample(dict(config=cfg, op=name, inputs=[list(c) for c in inputs], masks=mode, draws=draws, result=repr(got)[:80]))
     ln = lengths_of(r, env.secpoly)
-    if ln is not None and ln != (None,) * (len(ln) if isinstance(ln, tuple) else 1):
+    if ln is not None and ln != (None,) * (len(ln) if isinstance(ln, tuple) else 1) and not name.startswith('construct:poly'):
         pubkey = tuple(len(c) for c in inputs)
         if 'public' in name.split(':')[-1].split(','):          # the public operand (its value is public) is part of the class
             forms = name.split(':')[-1].split(',')
@@ -469,6 +472,8 @@ def mp_cases(p, tier):
         if name in ('gcdext', 'invert', 'is_irreducible') or name.startswith('powmod'):
             dom = dom[::2] if tier == 'quick' else dom
         for inputs in itertools.product(dom, repeat=arity):
+            if name in ('gcd', 'gcdext', 'monic', 'is_irreducible') and all(not any(c) for c in inputs):
+                continue        # zero polynomials: non-termination / assertion, reported by the single-party engine
             out.append((name, inputs))
     return out
 
@@ -553,8 +558,10 @@ def run_mp(job):
             part.violation(f'{base}:exception:{r0[1]}', f'{tag} raised {r0[2]} (masks {pat})', detail)
         elif r0[1]:
             key = f'{base}:{r0[1]}'
-            if name == 'powmod:0' and env_deg0(inputs[1]):
-                key = f'{base}:n=0:constant-modulus'
+            if name in ('powmod:0', 'powmod:1') and r0[1] == 'value':
+                key = f'{base}:unreduced:n={name.split(":")[1]}'
+            if name == 'is_irreducible' and any(c and c[-1] == 0 for c in inputs):
+                key += ':trailing-zeros'
             part.violation(key, f'{tag} = {r0[2]}, gfpx gives {r0[3]} (masks {pat})', detail)
         elif len(part.samples) < 1 and pat == 'max' and len(inputs) == 2:
             part.sample(dict(config=cfg, op=name, inputs=[list(c) for c in inputs], masks=pat, result=r0[2]))
